@@ -647,6 +647,157 @@ fn explore_hasher_seq_mode(cnf: &Cnf, clauses: &[Clause], max_levels: usize, dep
     out
 }
 
+/// third unmerged regime: the hash queries are part of the history. Alphabet: push, pop, decide(l),
+/// hash of the decided assignment, hash of the decided assignment extended by one free literal, and
+/// hash of the assignment used by the previous query again (when it still contains every decided literal;
+/// the assignment passed to hash may say more than what was decided). Nothing is hashed automatically, so
+/// a hasher that remembers its last query sees exactly the queries of the sequence, in their order.
+fn explore_hasher_sched(cnf: &Cnf, clauses: &[Clause], max_levels: usize, depth: usize, rep: &mut Report) -> Option<(Vec<String>, String)> {
+    let norm = normalise(clauses);
+    let n = cnf.num_vars();
+    struct Cx<'c> {
+        norm: &'c [Clause],
+        n: usize,
+        max_levels: usize,
+        by_res: HashMap<BTreeMap<usize, Vec<Lit>>, HashedCNF>,
+        by_hash: HashMap<HashedCNF, BTreeMap<usize, Vec<Lit>>>,
+        steps: u64,
+        seqs: u64,
+    }
+    fn query(cx: &mut Cx, h: &CnfHasher, a: &[Option<bool>]) -> Option<String> {
+        let hv = match guarded(|| h.hash(&model_of(a))) {
+            Ok(h) => h,
+            Err(p) => return Some(format!("hash panicked: {}", p)),
+        };
+        if let Some(res) = residual(cx.norm, a) {
+            if let Some(old) = cx.by_res.get(&res) {
+                if *old != hv {
+                    return Some(format!("the residual formula {:?} (assignment {:?}) hashes differently than it did in another query", res, a));
+                }
+            } else {
+                cx.by_res.insert(res.clone(), hv.clone());
+            }
+            if let Some(old) = cx.by_hash.get(&hv) {
+                if *old != res {
+                    return Some(format!("different residual formulas {:?} / {:?} share one hash", old, res));
+                }
+            } else {
+                cx.by_hash.insert(hv, res);
+            }
+        }
+        None
+    }
+    #[allow(clippy::too_many_arguments)]
+    fn go(cx: &mut Cx, h: &CnfHasher, levels: &mut Vec<Vec<Option<bool>>>, last: &Option<Vec<Option<bool>>>, hist: &mut Vec<String>, left: usize) -> Option<(Vec<String>, String)> {
+        if left == 0 {
+            cx.seqs += 1;
+            return None;
+        }
+        let top = levels.last().unwrap().clone();
+        // 0 push, 1 pop, 2.. decide, then queries
+        let mut acts: Vec<(u8, usize, bool)> = Vec::new();
+        if levels.len() < cx.max_levels {
+            acts.push((0, 0, false));
+        }
+        if levels.len() > 1 {
+            acts.push((1, 0, false));
+        }
+        for v in 0..cx.n {
+            if top[v].is_none() {
+                acts.push((2, v, true));
+                acts.push((2, v, false));
+            }
+        }
+        acts.push((3, 0, false)); // hash(decided)
+        for v in 0..cx.n {
+            if top[v].is_none() {
+                acts.push((4, v, true));
+                acts.push((4, v, false));
+            }
+        }
+        if let Some(l) = last {
+            if (0..cx.n).all(|v| top[v].is_none() || top[v] == l[v]) && *l != top {
+                acts.push((5, 0, false));
+            }
+        }
+        for (kind, v, b) in acts {
+            cx.steps += 1;
+            let mut h2 = h.clone();
+            let mut new_last = last.clone();
+            let mut popped: Option<Vec<Option<bool>>> = None;
+            let name;
+            match kind {
+                0 => {
+                    name = "push".to_string();
+                    if let Err(p) = guarded(|| h2.push()) {
+                        hist.push(name);
+                        return Some((hist.clone(), format!("push panicked: {}", p)));
+                    }
+                    let t = levels.last().unwrap().clone();
+                    levels.push(t);
+                }
+                1 => {
+                    name = "pop".to_string();
+                    if let Err(p) = guarded(|| h2.pop()) {
+                        hist.push(name);
+                        return Some((hist.clone(), format!("pop panicked: {}", p)));
+                    }
+                    popped = levels.pop();
+                }
+                2 => {
+                    name = format!("decide({}x{})", if b { "" } else { "-" }, v + 1);
+                    if let Err(p) = guarded(|| h2.decide(Literal::new(VarLabel::new(v as u64), b))) {
+                        hist.push(name);
+                        return Some((hist.clone(), format!("decide panicked: {}", p)));
+                    }
+                    levels.last_mut().unwrap()[v] = Some(b);
+                }
+                _ => {
+                    let m: Vec<Option<bool>> = match kind {
+                        3 => top.clone(),
+                        4 => {
+                            let mut m = top.clone();
+                            m[v] = Some(b);
+                            m
+                        }
+                        _ => last.clone().unwrap(),
+                    };
+                    name = format!("hash({:?})", m.iter().enumerate().filter_map(|(i, x)| x.map(|val| if val { i as i64 + 1 } else { -(i as i64 + 1) })).collect::<Vec<_>>());
+                    hist.push(name.clone());
+                    if let Some(e) = query(cx, &h2, &m) {
+                        return Some((hist.clone(), e));
+                    }
+                    hist.pop();
+                    new_last = Some(m);
+                }
+            }
+            hist.push(name);
+            if let Some(x) = go(cx, &h2, levels, &new_last, hist, left - 1) {
+                return Some(x);
+            }
+            hist.pop();
+            match kind {
+                0 => {
+                    levels.pop();
+                }
+                1 => levels.push(popped.unwrap()),
+                2 => levels.last_mut().unwrap()[v] = None,
+                _ => {}
+            }
+        }
+        None
+    }
+    let mut cx = Cx { norm: &norm, n, max_levels, by_res: HashMap::new(), by_hash: HashMap::new(), steps: 0, seqs: 0 };
+    let h0: CnfHasher = cnf.hasher().clone();
+    let mut levels = vec![vec![None; n]];
+    let mut hist = Vec::new();
+    let out = go(&mut cx, &h0, &mut levels, &None, &mut hist, depth);
+    rep.transitions += cx.steps;
+    rep.add_extra("hasher_scheduled_query_sequences", cx.seqs);
+    rep.add_extra("hasher_scheduled_query_steps", cx.steps);
+    out
+}
+
 // ---------------------------------------------------------------------------------------------
 // partial models, variable sets, literals
 
@@ -814,6 +965,7 @@ pub fn run(ctx: &Ctx) -> Report {
     // (every clause list to seq_depth; every seq_deep_stride-th list, and a rule-defined handful of richer
     // formulas further down, to seq_deep)
     let (seq_depth, seq_stride) = (ctx.tier.pick(5, 6), ctx.tier.pick(1, 1));
+    let sched_depth = ctx.tier.pick(6, 7);
     let (seq_deep, seq_deep_stride) = (if crate::core::disabled("deep") { 6 } else { ctx.tier.pick(8, 9) }, ctx.tier.pick(61, 31));
     for (n, mut sets, name) in fams {
         let types = clause_types(n);
@@ -840,6 +992,11 @@ pub fn run(ctx: &Ctx) -> Report {
                 if (r.traces as usize) % seq_stride == 0 {
                     let cnf = to_cnf(&clauses);
                     let d = if (s.iter().sum::<usize>() + s.len()) % seq_deep_stride == 0 { seq_deep } else { seq_depth };
+                    if d == seq_deep && nv <= 3 && !crate::core::disabled("sched") {
+                        if let Some((hist, w)) = explore_hasher_sched(&cnf, &clauses, 2, sched_depth, &mut r) {
+                            r.violation("hasher:residual-hash", format!("clause list {} after {:?} (queries as part of the history): {}", cnf_json(&clauses), hist, w), json!({"kind": "hasher_sched", "cnf": cnf_json(&clauses), "history": hist, "depth": sched_depth}));
+                        }
+                    }
                     if let Some((hist, w)) = explore_hasher_seq(&cnf, &clauses, (nv + 1).min(3), d, &mut r) {
                         r.violation("hasher:residual-hash", format!("clause list {} after {:?} (unmerged sequences): {}", cnf_json(&clauses), hist, w), json!({"kind": "hasher_seq", "cnf": cnf_json(&clauses), "history": hact_json(&hist), "depth": d}));
                     }
@@ -898,6 +1055,11 @@ pub fn run(ctx: &Ctx) -> Report {
                 let cnf = to_cnf(clauses);
                 if let Some((hist, w)) = explore_hasher_seq(&cnf, clauses, 3, seq_deep, &mut r) {
                     r.violation("hasher:residual-hash", format!("clause list {} after {:?} (unmerged sequences): {}", cnf_json(clauses), hist, w), json!({"kind": "hasher_seq", "cnf": cnf_json(clauses), "history": hact_json(&hist), "depth": seq_deep}));
+                }
+                if !crate::core::disabled("sched") && num_vars(clauses) <= 3 {
+                    if let Some((hist, w)) = explore_hasher_sched(&cnf, clauses, 2, sched_depth, &mut r) {
+                        r.violation("hasher:residual-hash", format!("clause list {} after {:?} (queries as part of the history): {}", cnf_json(clauses), hist, w), json!({"kind": "hasher_sched", "cnf": cnf_json(clauses), "history": hist, "depth": sched_depth}));
+                    }
                 }
             }
             r
@@ -1044,6 +1206,13 @@ pub fn replay(_ctx: &Ctx, case: &Value) -> Report {
             let c = cnf_from_json(&case["cnf"]);
             let nv = case["levels"].as_u64().map(|x| x as usize - 1).unwrap_or(num_vars(&c));
             if let Some((h, w)) = explore_hasher(&c, nv + 1, &mut rep) {
+                rep.violation("hasher:residual-hash", format!("{:?}: {}", h, w), case.clone());
+            }
+        }
+        Some("hasher_sched") => {
+            let c = cnf_from_json(&case["cnf"]);
+            let d = case["depth"].as_u64().unwrap_or(6) as usize;
+            if let Some((h, w)) = explore_hasher_sched(&to_cnf(&c), &c, 2, d, &mut rep) {
                 rep.violation("hasher:residual-hash", format!("{:?}: {}", h, w), case.clone());
             }
         }
